@@ -31,17 +31,79 @@ type Path struct {
 // this path; phis of blocks not on the path stay as they are.
 func (p *Path) Resolve(v ssa.Value) ssa.Value {
 	for i := 0; i < 64; i++ {
-		ph, ok := v.(*ssa.Phi)
-		if !ok {
+		switch x := v.(type) {
+		case *ssa.Phi:
+			r, ok := p.phi[x]
+			if !ok {
+				return v
+			}
+			v = r
+		case *ssa.UnOp:
+			// a load of a private local cell (for instance a result spilled because the function
+			// defers something): the value last stored into the cell on this path
+			st := p.lastStoreBefore(x)
+			if st == nil {
+				return v
+			}
+			v = st
+		default:
 			return v
 		}
-		r, ok := p.phi[ph]
-		if !ok {
-			return v
-		}
-		v = r
 	}
 	return v
+}
+
+// lastStoreBefore: for a load of a cell that is only ever stored to and loaded
+// from directly, the value of the last store the path executed before the
+// load (nil when the load is not on the path, or nothing was stored yet).
+func (p *Path) lastStoreBefore(ld *ssa.UnOp) ssa.Value {
+	if ld.Op != token.MUL {
+		return nil
+	}
+	a, ok := ld.X.(*ssa.Alloc)
+	if !ok || !privateCell(a) {
+		return nil
+	}
+	var last ssa.Value
+	for _, in := range p.Instrs {
+		if in == ssa.Instruction(ld) {
+			return last
+		}
+		if st, ok := in.(*ssa.Store); ok && st.Addr == ssa.Value(a) {
+			last = st.Val
+		}
+	}
+	return nil
+}
+
+var privateCellCache = map[*ssa.Alloc]bool{}
+
+// privateCell: every use of the cell is a direct store to it or a direct load
+// from it (its address goes nowhere else: no closure, no call, no field access).
+func privateCell(a *ssa.Alloc) bool {
+	if v, ok := privateCellCache[a]; ok {
+		return v
+	}
+	ok := true
+	if refs := a.Referrers(); refs != nil {
+		for _, r := range *refs {
+			switch x := r.(type) {
+			case *ssa.Store:
+				if x.Addr != ssa.Value(a) {
+					ok = false
+				}
+			case *ssa.UnOp:
+				if x.Op != token.MUL {
+					ok = false
+				}
+			case *ssa.DebugRef:
+			default:
+				ok = false
+			}
+		}
+	}
+	privateCellCache[a] = ok
+	return ok
 }
 
 func (p *Path) canon(v ssa.Value) string {
